@@ -22,7 +22,7 @@ import os
 from .. import core, simfs
 from ..core import raised
 
-NAME_POOL = ["chr1", "chr2", "chr10", "chr1_alt", "chr11", "chr2_r"]     # prefixes of each other, names with '_'
+NAME_POOL = ["chr1", "chr2", "chr10", "chr1_alt", "chr11", "chr2_r", "scaffold10", "scaffold11"]     # prefixes of each other, names with '_', names sharing their first 8 bytes
 UNKNOWN_POOL = ["chrX", "chr", "chr1x", "chrU_k"]    # never in a genome; 'chr' prefixes everything; '_' but not in the genome
 EXTRA_IGNORED_POOL = ["chrM", "chrEBV"]              # given to Genome.with_ignored_added
 MAX_CONTIGS = 4
